@@ -47,6 +47,42 @@ def contracts():
         property_clauses={"one_entry_per_execution_iff_gates_open": "C16", "records_that_it_has_printed": "C16", "text_is_the_rendered_template": "C16"},
         doc={"one_entry_per_execution_iff_gates_open": "C16: 'sends to every printer one entry per execution'; 'print.once at most once per run'",
              "records_that_it_has_printed": "C16: 'print.once at most once per run' -- every print, to any printer, must be recorded for once to hold"}))
+    rendered1 = "ufun_str('render', self.children[0].g_value)"
+    cs.append(Contract(
+        target=f"{PRINTF}::Print._decide_match", variant="default_printer",
+        types={"skip": "val", "self.children": "fixed[obj:Term]", "self.children.0.g_value": "str"},
+        modifies=["self.match", "self.matcher.csvpath.g_printed", "self.matcher.g_set_has_happened"],
+        ensures={
+            "one_entry_per_execution_iff_gates_open": "len(self.matcher.csvpath.g_printed) == len(old(self.matcher.csvpath.g_printed)) + (1 if %s else 0)" % fires,
+            "records_that_it_has_printed": "self.matcher.g_set_has_happened == old(self.matcher.g_set_has_happened) + (1 if %s else 0)" % fires,
+            "text_is_the_rendered_template": "implies(%s and len(%s) > 0 and not %s.endswith(' '), self.matcher.csvpath.g_printed[len(self.matcher.csvpath.g_printed) - 1] == %s)" % (fires, rendered1, rendered1, rendered1),
+            "earlier_printouts_untouched": "self.matcher.csvpath.g_printed[0:len(old(self.matcher.csvpath.g_printed))] == old(self.matcher.csvpath.g_printed)",
+            "votes_default": "self.match == self.matcher._AND",
+        },
+        inline=["Matchable._child_two", "Equality.left", "Equality.right", "Matchable.default_match"],
+        stub_new=["PrintParser"], class_fields=CF, macros=MACROS, returns="none", native=NATIVE,
+        property_clauses={"one_entry_per_execution_iff_gates_open": "C16", "records_that_it_has_printed": "C16", "text_is_the_rendered_template": "C16", "earlier_printouts_untouched": "C16"}))
+    # which store a local reference reads: $.variables / $.headers / $.metadata / $.csvpath
+    CF["PrintParser"] = {**CF.get("PrintParser", {}), "csvpath": "obj:CsvPath", "g_transform_calls": "int"}
+    CF["CsvPath"].update({"variables": "dict[str,val]", "metadata": "dict[str,val]", "g_headers": "list[str]"})
+    cs.append(Contract(target=f"{PP}::PrintParser._transform_reference", interface=True, types={"ref": "val"}, modifies=["self.g_transform_calls"],
+                       ensures={"n": "self.g_transform_calls == old(self.g_transform_calls) + 1"}, returns="str", class_fields=CF,
+                       assumptions=["_transform_reference(ref) renders ref['name'] against ref['data'] (_ref_from_dict: proved here; _ref_from_list: bounded)"]))
+    cs.append(Contract(target="csvpath/csvpath.py::CsvPath.headers", interface=True, types={}, returns="expr:self.g_headers", ensures={"h": "result is self.g_headers"}, class_fields=CF,
+                       assumptions=["CsvPath.headers is the current header list (C06)"]))
+    cs.append(Contract(target=f"{PP}::PrintParser._get_runtime_data_from_local", interface=True, types={"csvpath": "val", "runtime": "val", "local": "val"}, returns="none", class_fields=CF,
+                       assumptions=["_get_runtime_data_from_local fills the dict it is given with the csvpath's runtime data (RuntimeDataCollector)"]))
+    cs.append(Contract(
+        target=f"{PP}::PrintParser._handle_local", types={"ref": "rec[root:str,data_type:str,name:val]", "self.csvpath": "obj:CsvPath", "self.csvpath.variables": "dict[str,val]",
+                                                        "self.csvpath.metadata": "dict[str,val]"},
+        modifies=["ref", "self.g_transform_calls"],
+        ensures={"variables_reference_reads_the_variables": "implies(ref['data_type'] == 'variables', ref['data'] is self.csvpath.variables)",
+                 "headers_reference_reads_the_headers": "implies(ref['data_type'] == 'headers', ref['data'] is self.csvpath.g_headers)",
+                 "metadata_reference_reads_the_metadata": "implies(ref['data_type'] == 'metadata', ref['data'] is self.csvpath.metadata)",
+                 "rendered_once": "self.g_transform_calls == old(self.g_transform_calls) + 1"},
+        class_fields=CF, macros=MACROS, returns="str", native=NATIVE,
+        property_clauses={"variables_reference_reads_the_variables": "C16", "headers_reference_reads_the_headers": "C16", "metadata_reference_reads_the_metadata": "C16"},
+        doc={"variables_reference_reads_the_variables": "C16: 'each $.variables.x ... reference is replaced by the value current at that point' -- read from this csvpath's live store"}))
     # reference resolution: $.variables.x.key / .N / .length
     cs.append(Contract(
         target=f"{PP}::PrintParser._ref_from_dict", variant="tracked_dict",
@@ -75,6 +111,6 @@ def bounded(tier, seed):
 
 
 LEVEL = "other"
-EXPLANATION = ("Proved: Print._decide_match sends exactly one entry per execution iff the onchange/once gates are open and records it (so print.once holds for every "
+EXPLANATION = ("Proved (default and named printer; $.variables/$.headers/$.metadata read from the live stores by _handle_local): Print._decide_match sends exactly one entry per execution iff the onchange/once gates are open and records it (so print.once holds for every "
                "printer); _ref_from_dict returns the tracked value / stack item / length whatever it is (0 and '' included). Bounded (not proved): text fidelity "
                "through the real Lark grammar and transformer for every template of the stated scope -- with one known finding (references closer than two characters).")
